@@ -154,7 +154,7 @@ impl Check for C06 {
 
     fn run(&self, ctx: &mut Ctx) -> Result<(), MachineryError> {
         let g = grid(ctx.tier);
-        ctx.rule = "complete product over the boundary grid G: every ordered pair (a,b) x {+ - * / %} x 6 forms (expression, op-assign on variable / list element / property (two spellings), x = x op b), 6 comparisons, the identity (a/b)*b + a%b == a, every `_` placement (<=2) of every non-negative grid literal with and without `-`, every non-negative grid literal padded with leading zeros to 8 widths up to 64 digits, too-large literals, ranges a .. a+d for d in [-2,6], every descending pair as a range, ranges iterated directly / evaluated again after the first result changed / spread, op-assignment on a variable shadowing another one, three-operand chains, 9 exact / inexact operations in 19 expression positions (conditions of if / else-if / while, iterables, indices, bounds, arguments, returns, literals, targets); non-trivial = every case (all are distinct tuples); distinct = distinct (reference outcome, diagnostic shape)".to_string();
+        ctx.rule = "complete product over the boundary grid G: every ordered pair (a,b) x {+ - * / %} x 6 forms (expression, op-assign on variable / list element / property (two spellings), x = x op b), 6 comparisons, the identity (a/b)*b + a%b == a, every `_` placement (<=2) of every non-negative grid literal with and without `-`, every non-negative grid literal padded with leading zeros to 8 widths up to 64 digits, too-large literals, ranges a .. a+d for d in [-2,6], every descending pair as a range, ranges iterated directly / evaluated again after the first result changed / spread, op-assignment on a variable shadowing another one, three-operand chains, ranges whose bounds are changed by the loop body or written as `t ± k` at the edges, element op-assignment at every position of lists of 1..6 items, 9 exact / inexact operations in 19 expression positions (conditions of if / else-if / while, iterables, indices, bounds, arguments, returns, literals, targets); non-trivial = every case (all are distinct tuples); distinct = distinct (reference outcome, diagnostic shape)".to_string();
         let mut total_pairs = 0u64;
         let mut overflow_cells = 0u64;
         for chunk in g.chunks(8) {
@@ -315,6 +315,30 @@ impl Check for C06 {
                 for op in AR {
                     cases.push(Case::new(format!("x := 7\nb := {}\n{{\nx := {}\nx {}= b\nprint(x)\n}}\nprint(x)\n", lit(b), lit(a), op), T_REF, format!("{} {}= {} on a block variable shadowing another", a, op, b)));
                     cases.push(Case::new(format!("x := 7\nb := {}\nfn f() {{\nx := {}\nx {}= b\nprint(x)\nreturn fn () {{\nx {}= 1\nreturn x\n}}\n}}\nprint(f()())\nprint(x)\n", lit(b), lit(a), op, op), T_REF, format!("{} {}= {} on a function variable shadowing a global", a, op, b)));
+                }
+            }
+        }
+        // a range is built once from its two bounds: a body that changes what a bound read does not
+        // change the iteration; bounds written as `expr + literal` are exact or reported like any sum
+        for (lo, hi) in [(2i64, 6i64), (0, 3), (-2, 2), (5, 5)] {
+            for body in ["n -= 1", "n += 1", "m += 1", "n = 0", "m = n"] {
+                cases.push(Case::new(format!("m := {}\nn := {}\nfor [i, v] in m .. n {{\n{}\nprint([i, v])\n}}\nprint([m, n])\n", lo, hi, body), T_REF, format!("for over {} .. {} whose body runs {}", lo, hi, body)));
+                cases.push(Case::new(format!("m := {}\nn := {}\nfor v in m .. n + 1 {{\n{}\nprint(v)\n}}\nfor v in m - 1 .. n {{\nprint(v)\nbreak\n}}\n", lo, hi, body), T_REF, format!("for over {} .. {} + 1 whose body runs {}", lo, hi, body)));
+            }
+        }
+        for top in [i64::MAX, i64::MAX - 1, i64::MAX - 2, i64::MIN, i64::MIN + 1, i64::MIN + 2, 5] {
+            for k in [1i64, 2, 3] {
+                for tmpl in ["print(t .. t + K)\n", "print(t - K .. t)\n", "print(t + K .. t)\n", "print(t .. t - K)\n", "xs := [1, 2, 3]\nprint(xs[0:t + K])\n", "for e in t - K .. t {\nbreak\n}\nprint(1)\n", "x := t + K\n", "x := [t - K, t + K]\n", "print(0 .. t * K)\n"] {
+                    cases.push(Case::new(format!("t := {}\nprint(\"pre\")\n{}print(\"post\")\n", lit(top), tmpl.replace('K', &format!("{}", k))), T_REF, format!("bound {} with offset {} in {:?}", top, k, tmpl)));
+                }
+            }
+        }
+        // op-assignment on an element changes that element only, wherever it stands in the list
+        for n in 1..=6usize {
+            for i in 0..n {
+                for op in AR {
+                    let items: Vec<String> = (0..n).map(|j| format!("{}", 10 * (j + 1))).collect();
+                    cases.push(Case::new(format!("a := [{}]\na[{}] {}= 5\nprint(a)\nb := a\nb[{}] {}= 3\nprint(a)\n", items.join(", "), i, op, n - 1 - i, op), T_REF, format!("element {} of {} items {}= 5", i, n, op)));
                 }
             }
         }
